@@ -332,6 +332,7 @@ def run(argv):
                 else:
                     chk.traces += 1
     dedup_then_render_check(chk)
+    half_open_dedup_check(chk)
     moved_boundary_check(chk)
     # KROME bound reader vs model
     if getattr(chk, "lean_ok", False):
@@ -420,6 +421,54 @@ def moved_boundary_check(chk):
                               f"is {want}", input=lines, written=(d / "edited.naunet").read_text().splitlines(),
                               guards=[c for _, _, c in stmts])
                 break
+
+
+def half_open_dedup_check(chk):
+    """The same clean-up on a fit whose outer pieces are half-open, the way KROME files and the native format write them (no lower
+    bound on the first piece, no upper bound on the last: the limit is left at its default -1): the pieces are still different
+    reactions, and after the default duplicate search + removal exactly one of them is active at every temperature."""
+    from naunet.network import Network
+    from .ode_checks import reset_species_state
+    from . import netgen
+    mk = netgen.mk
+    sp = {"H": mk([("H", 1)]), "CO": mk([("C", 1), ("O", 1)]), "C": mk([("C", 1)]), "OH": mk([("O", 1), ("H", 1)]), "O": mk([("O", 1)])}
+    wins = [(-1.0, 300.0, 2.0), (300.0, 5500.0, 3.0), (5500.0, -1.0, 4.0)]
+    reacs = [netgen.AReac([sp["H"], sp["CO"]], [sp["C"], sp["OH"]], alpha=a, tmin=lo, tmax=hi, idx=i + 1) for i, (lo, hi, a) in enumerate(wins)]
+    reacs.append(netgen.AReac([sp["C"], sp["O"]], [sp["CO"]], alpha=7.0, idx=4))
+    reacs.append(netgen.AReac([sp["C"], sp["O"]], [sp["CO"]], alpha=7.0, idx=5))          # the plain reaction listed twice
+    d = chk.scratch / "dedup-half-open"
+    d.mkdir(parents=True, exist_ok=True)
+    lines = [netgen.native_line(r) for r in reacs]
+    (d / "fit.naunet").write_text("\n".join(lines) + "\n")
+    reset_species_state()
+    try:
+        with silenced():
+            net = Network(filelist=[str(d / "fit.naunet")], fileformats=["naunet"], elements=["H", "C", "N", "O"], pseudo_elements=["CR"])
+            _, dupidx, _ = net.find_duplicate_reaction()
+            net.remove_reaction(dupidx)
+            render(net, "dense", d / "dense")
+    except Exception as e:
+        chk.violation({"kind": "dedup-render-raised", "error": type(e).__name__}, f"cleaning and rendering a half-open piecewise fit raised {e}")
+        return
+    rd = Rendered(d / "dense", "dense")
+    stmts = rd.rates("k")
+    chk.count(("dedup-half-open",), nontrivial=True)
+    chk.hist["dedup-half-open"] += 1
+    for T in [2.0, 299.999, 300.0, 650.0, 5499.9, 5500.0, 9000.0, 1e5]:
+        act = []
+        for _, rhs, cond in stmts:
+            on = bool(ceval.ev(cparse.parse_expr(cond), {"Tgas": T})) if cond else True
+            if on:
+                v = float(ceval.ev(cparse.parse_expr(rhs), {"Tgas": T}))
+                if v in (2.0, 3.0, 4.0):
+                    act.append(v)
+        want = [2.0] if T < 300.0 else ([3.0] if T < 5500.0 else [4.0])
+        if act != want or sorted(dupidx) != [4]:
+            chk.violation({"kind": "dedup-drops-window-pieces", "half_open": True},
+                          f"after the default duplicate clean-up the active piece(s) of a fit with half-open outer windows at T={T!r} are "
+                          f"{act}, declared is {want} (reported as duplicates: positions {sorted(dupidx)}; the repeated line is position 4)",
+                          input=lines, guards=[c for _, _, c in stmts])
+            return
 
 
 def dedup_then_render_check(chk):
